@@ -618,9 +618,11 @@ reg(Contract(
 ))
 
 
-def _wfm_make(cap):
+def _wfm_make(cap, n_jumps=None):
     def make(ex, st):
         e = mk_ens(st, ("L",), None, mc_move="wf")
+        if n_jumps is not None:
+            e["tis_set"]["n_jumps"] = n_jumps
         if cap:
             e["tis_set"]["interface_cap"] = fresh("cap", REAL)
         return {"ens_set": e, "trial_path": mk_path(st, "old", 3), "engine": EngineObj(), "start_cond": ("L",)}
@@ -683,7 +685,7 @@ def _ci_summary():
 
 
 reg(Contract(
-    "wire_fencing", src=(TIS_PY, "wire_fencing"), overrides={"Path.check_interfaces": _ci_summary()}, cases=[Case("nocap", _wfm_make(False)), Case("cap", _wfm_make(True))],
+    "wire_fencing", src=(TIS_PY, "wire_fencing"), overrides={"Path.check_interfaces": _ci_summary()}, cases=[Case("nocap", _wfm_make(False)), Case("cap", _wfm_make(True)), Case("cap_1_jump", _wfm_make(True, 1)), Case("cap_3_jumps", _wfm_make(True, 3))],
     requires=_wfm_req, ensures=[("wire_fencing", _wfm_post)], canaries=[("never_accepts", lambda c: z3.Not(B(c.result[0])))],
 ))
 
